@@ -26,12 +26,20 @@ import (
 
 func init() { common.Register("statesync", Run) }
 
-var classes = []string{"none", "drop", "extra", "alter", "alterinner", "wrongroot", "wronghash", "replay", "swap", "dup"}
+var classes = []string{"none", "drop", "extra", "alter", "alterinner", "wrongroot", "wronghash", "replay", "swap", "dup", "relabel"}
 
 type drv struct {
 	w  *world.World
 	rc *rec.Recorder
 	r  *rand.Rand
+	// specs of the transactions of the block being built (makeBlock), for competing executions
+	specs []world.TxnSpec
+	// rivals[block hash]: the self-consistent change set of a competing execution of that block on the same
+	// previous block (nil if none could be built)
+	rivals map[string]*block.StateChange
+	// post, when set by tamper, changes the set AFTER receipt (codec + ComputeProperties), i.e. while
+	// it carries the root and node db computed for what was received
+	post func(recv *block.StateChange) string
 	// counters reported in the evidence
 	incomplete int
 	acceptedBy map[string]int
@@ -85,6 +93,7 @@ func (d *drv) someTxns(n int) {
 			ts.Type = transaction.TxnTypeSmartContract
 			ts.To, ts.Fn = world.Contracts["faucetsc"], "no_such_function"
 		}
+		d.specs = append(d.specs, ts)
 		w.DoRec(d.rc, ts, rec.M{"src": "statesync"})
 	}
 }
@@ -92,15 +101,62 @@ func (d *drv) someTxns(n int) {
 func (d *drv) makeBlock(on *block.Block, n int) *block.Block {
 	w := d.w
 	w.BeginBlock(on)
+	d.specs = nil
 	d.someTxns(n)
 	for i := 0; w.CurState.GetChangeCount() == 0 && i < 5; i++ {
 		// every transaction was rejected: a block without changes publishes no change set
 		// (NewBlockStateChange refuses it); add a plain send that applies
-		w.DoRec(d.rc, world.TxnSpec{From: w.Clients[0], To: w.Clients[1].ID, Type: transaction.TxnTypeSend, Value: 1}, rec.M{"src": "statesync"})
+		ts := world.TxnSpec{From: w.Clients[0], To: w.Clients[1].ID, Type: transaction.TxnTypeSend, Value: 1}
+		d.specs = append(d.specs, ts)
+		w.DoRec(d.rc, ts, rec.M{"src": "statesync"})
 	}
 	b := w.EndBlock()
 	b.SetStateChangesCount(b.ClientState) // as the generator does (miner/protocol_block.go)
 	return b
+}
+
+// rival executes a competing block on the same previous block: the same transactions with the value of
+// one of them changed (not recorded: it is not part of the history, only a source of a valid change set
+// of another execution). Preferred: a different root with the same number of changed nodes, so that
+// only the comparison of the merged root can tell it from the published set; otherwise any different root.
+func (d *drv) rival(of *block.Block, specs []world.TxnSpec) *block.StateChange {
+	w := d.w
+	head := w.Head
+	defer func() { w.Head = head }()
+	var fallback *block.StateChange
+	for k := 0; k <= len(specs); k++ {
+		w.BeginBlock(of.PrevBlock)
+		for i, ts := range specs {
+			if i == k {
+				ts.Value++
+			}
+			w.Do(ts)
+		}
+		if k == len(specs) { // one more transfer
+			w.Do(world.TxnSpec{From: w.Clients[0], To: w.Clients[1].ID, Type: transaction.TxnTypeSend, Value: 1})
+		}
+		if w.CurState.GetChangeCount() == 0 {
+			w.EndBlock()
+			continue
+		}
+		rb := w.EndBlock()
+		rb.SetStateChangesCount(rb.ClientState)
+		if bytes.Equal(rb.ClientStateHash, of.ClientStateHash) {
+			continue
+		}
+		s, err := block.NewBlockStateChange(rb)
+		if err != nil {
+			continue
+		}
+		sortSet(s)
+		if rb.StateChangesCount == of.StateChangesCount {
+			return s
+		}
+		if fallback == nil {
+			fallback = s
+		}
+	}
+	return fallback
 }
 
 func cloneNodes(ns []util.Node) []util.Node {
@@ -276,6 +332,27 @@ func (d *drv) tamper(class string, t *block.StateChange, target, other *block.Bl
 			}
 		}
 		return ""
+	case "relabel":
+		// a set that is consistent when it is received (its nodes compute to its declared root) and
+		// is relabelled for the target block afterwards: the cached computed root differs from the
+		// declared one, only the merged root can tell
+		src, v := otherSet, "other-block-set-relabelled-after-receipt"
+		if rv := d.rivals[target.Hash]; rv != nil && r.Intn(4) != 0 {
+			src, v = rv, "competing-execution-relabelled-after-receipt"
+		}
+		*t = *copySet(src)
+		full := r.Intn(4) != 0
+		if !full {
+			v += "-root-only"
+		}
+		d.post = func(recv *block.StateChange) string {
+			recv.Hash = append(util.Key{}, target.ClientStateHash...)
+			if full {
+				recv.Block = target.Hash
+			}
+			return v
+		}
+		return v
 	case "dup":
 		i := r.Intn(len(t.Nodes))
 		if len(t.Nodes) > 1 && r.Intn(2) == 0 { // keep the count: duplicate one, drop another
@@ -334,7 +411,10 @@ func (d *drv) trace(id int, a common.Args) {
 	d.rc.Reset(rec.M{"family": "statesync", "id": id, "seed": a.Seed, "steps": a.Steps}, rec.M{"nonces": w.InitNonces(w.Genesis.ClientState)})
 	// two consecutive executed blocks on genesis
 	b1 := d.makeBlock(w.Genesis, 1+d.r.Intn(4))
+	specs1 := d.specs
 	b2 := d.makeBlock(b1, 1+d.r.Intn(4))
+	specs2 := d.specs
+	d.rivals = map[string]*block.StateChange{b1.Hash: d.rival(b1, specs1), b2.Hash: d.rival(b2, specs2)}
 	// the previous states are persisted, as after finalization (needed when the syncing node has
 	// the previous block by hash only)
 	ctx := context.Background()
@@ -365,10 +445,12 @@ func (d *drv) trace(id int, a common.Args) {
 func (d *drv) sync(class string, target, other *block.Block, honest, otherSet *block.StateChange) {
 	w := d.w
 	t := copySet(honest)
+	d.post = nil
 	variant := d.tamper(class, t, target, other, otherSet)
 	if variant == "" {
 		class, variant = "none", "honest"
 		t = copySet(honest)
+		d.post = nil
 	}
 	hashMatch := t.Block == target.Hash
 	rootMatch := bytes.Equal(t.Hash, target.ClientStateHash)
@@ -396,6 +478,18 @@ func (d *drv) sync(class string, target, other *block.Block, honest, otherSet *b
 		rerr = datastore.FromMsgpack(datastore.ToMsgpack(t).Bytes(), recv)
 	}
 
+	if rerr == nil && d.post != nil {
+		// what ApplyBlockStateChange is given is the received set with its labels changed
+		variant = d.post(recv)
+		hashMatch = recv.Block == target.Hash
+		rootMatch = bytes.Equal(recv.Hash, target.ClientStateHash)
+		countMatch = len(recv.Nodes) == target.StateChangesCount
+	}
+	// the root that the nodes of the set compute to (cached by ComputeProperties on receipt)
+	crootMatch := false
+	if rerr == nil && recv.GetRoot() != nil {
+		crootMatch = bytes.Equal(recv.GetRoot().GetHashBytes(), target.ClientStateHash)
+	}
 	prevComputed := d.r.Intn(3) != 0
 	fb := d.freshCopy(target, prevComputed)
 	status0 := fb.GetStateStatus()
@@ -454,12 +548,18 @@ func (d *drv) sync(class string, target, other *block.Block, honest, otherSet *b
 			}
 		}
 	}
-	untouched := fb.ClientState == nil && fb.GetStateStatus() == status0 && samePrev
+	headerSame := bytes.Equal(fb.ClientStateHash, target.ClientStateHash) && fb.StateChangesCount == target.StateChangesCount && fb.Hash == target.Hash
+	untouched := fb.ClientState == nil && fb.GetStateStatus() == status0 && samePrev && headerSame
 	if accepted {
 		d.acceptedBy[class]++
 		if missing > 0 || absent > 0 {
 			d.incomplete++
 		}
+	}
+	shapeClass := class
+	if class == "relabel" && hashMatch && rootMatch && countMatch {
+		// only the merged root differs from what the block declares
+		shapeClass = "relabel/samecount"
 	}
 	out := "rejected@" + stage
 	if accepted {
@@ -474,8 +574,8 @@ func (d *drv) sync(class string, target, other *block.Block, honest, otherSet *b
 	}
 	d.rc.Emit(rec.M{"ev": "Sync", "tamper": class, "variant": variant, "codec": codec, "prev": prevMode, "block_round": target.Round,
 		"n_nodes": len(t.Nodes), "count": target.StateChangesCount,
-		"hash_match": hashMatch, "root_match": rootMatch, "count_match": countMatch,
+		"hash_match": hashMatch, "root_match": rootMatch, "count_match": countMatch, "croot_match": crootMatch, "header_same": headerSame,
 		"stage": stage, "accepted": accepted, "state_set": stateSet, "root_equal": rootEqual,
 		"missing": missing, "wrong": wrong, "absent": absent, "untouched": untouched, "prev_same": samePrev, "leaked": leaked, "panic": panicked},
-		class+"/"+out, accepted)
+		shapeClass+"/"+out, accepted)
 }
